@@ -13,7 +13,7 @@ Trace == ndJsonDeserialize(TraceFile)
 Install(st) ==
   /\ coin' = st.coin /\ csupply' = st.csupply /\ tok' = st.tok /\ supply' = st.supply /\ allow' = st.allow
   /\ reg' = st.reg /\ enabled' = st.enabled /\ byDenom' = st.byDenom /\ byToken' = st.byToken
-  /\ aliasIdx' = st.aliasIdx /\ mdAlias' = st.mdAlias /\ pool' = st.pool /\ calls' = st.calls
+  /\ aliasIdx' = st.aliasIdx /\ mdAlias' = st.mdAlias /\ pool' = st.pool /\ calls' = st.calls /\ gift' = st.gift
   /\ UNCHANGED <<nconv, ntok, ngov, nprog>>
 
 PInit == Init /\ l = 1
